@@ -450,7 +450,7 @@ impl SaslProfile {
 //@@ subst `"SASL Challenge is not implemented for ANONYMOUS, PLAIN, or EXTERNAL." .to_string()` => `fmt_msg()` rule=R9
 //@@ subst `format!( "{:?} is not expected on client SASL profile", frame )` => `fmt_msg()` rule=R9
 //@@ subst `Binary::from(client_final)` => `binary_from(client_final)` rule=R16
-//@@ subst `fe2o3_amqp_types::sasl::SaslCode::Ok` => `SaslCode::Ok` rule=R11
+//@@ subst `fe2o3_amqp_types::sasl::SaslCode::Ok` => `SaslCode::Ok` rule=optional-R11
 //@@ spec
     requires
         b64_small(), consts_small(),
